@@ -314,6 +314,11 @@ def gen_case(rnd, ctx, maxlen):
     if not case["ops"]:
         case["ops"].append(["Set", 0, classes[0]["traits"][1][0], 5])
     ctx.count("history-length:%02d" % len(case["ops"]))
+    if rnd.random() < 0.3:
+        # the classes of this case define a value-style __eq__ (equal class and equal stored plain values): swapping
+        # the delegate for a DISTINCT object that compares EQUAL must still move the forwarder to the new delegate
+        case["eq"] = True
+        ctx.count("classes:value-style-eq")
     return case
 
 
@@ -352,6 +357,12 @@ def corpus():
                         ["Set", 2, [X, ITEMS], 14], ["Set", 2, [A], 15], ["Set", 0, [X, ITEMS], 16], ["Del", 2, [A]],
                         ["Set", 0, [X, ITEMS], 17], ["Set", 2, [PARENT], {"obj": 1}], ["Set", 1, [X, ITEMS], 18],
                         ["Set", 2, [R, ITEMS], 19]]))
+    # fifth wave: delegate swapped for a distinct object that compares equal (value-style __eq__ on the classes): the
+    # forwarder follows the current delegate, the previous one is no longer listened to
+    cs.append(dict(classes=[par_a, ch], objs=objs, eq=True,
+                   ops=[["Set", 0, [P_, X], 30], ["Set", 1, [P_, X], 30], ["Set", 2, [PARENT], {"obj": 1}],
+                        ["Set", 1, [P_, X], 31], ["Set", 0, [P_, X], 32], ["Set", 1, [A], 5], ["Set", 0, [A], 6],
+                        ["Set", 2, [Y], 12], ["Set", 1, [X], 13], ["Set", 0, [X], 14]]))
     # F20/F29 (repaired by fcaa594): del of a PrototypedFrom(..., listenable=False) attribute raised KeyError (with and
     # without a local value); it is an ordinary delete
     ch_nl = dict(prefix=[PRE_], unlisten=[[X], [Y]],
